@@ -233,6 +233,7 @@ def cmd_check(pid, tier, seed, jobs):
     t_start = time.time()
     if tier == "thorough":
         os.environ.setdefault("VERIF_XCHECK", "1")      # FP shape lemmas are re-discharged with cvc5 (second opinion)
+        os.environ.setdefault("VERIF_XCHECK_OBL", "24")  # and, per worker process, a sample of the unsat verdicts (sx/core.py)
     _setup_paths()
     logging.disable(logging.CRITICAL)
     src_root = _import_repo()
@@ -444,8 +445,16 @@ def cmd_check(pid, tier, seed, jobs):
                        "seconds": round(total.solver_s, 2), "unknown": total.unknown,
                        "fp_obligation_queries": total.fp_queries,
                        "fp_shape_lemmas": {"proved": fp_all["proved"], "failed": fp_all["failed"], "shapes": fp_all["shapes"][:12]}},
-            "cross_solver": {"solver": "cvc5 (python wheel)", "scope": "FP shape lemmas, thorough tier only",
-                             "results": fp_all["xcheck"][:40], "disagreements": fp_all["disagreements"][:5]},
+            "cross_solver": {"solver": "cvc5 (python wheel)",
+                             "scope": "thorough tier only: every FP shape lemma, and a sample (per worker process: one in "
+                                      "VERIF_XCHECK_STRIDE, at most VERIF_XCHECK_OBL) of the z3 'unsat' verdicts that discharge an "
+                                      "obligation or prune a branch, re-discharged from the SMT-LIB2 text of the same query; "
+                                      "a cvc5 'sat' makes the run inconclusive (exit 2), a cvc5 timeout is counted as unknown",
+                             "results": fp_all["xcheck"][:40], "disagreements": fp_all["disagreements"][:5],
+                             "obligation_and_branch_queries": {"rechecked": total.xc_queries, "agree_unsat": total.xc_agree,
+                                                               "cvc5_unknown_or_timeout": total.xc_unknown,
+                                                               "disagree": total.xc_disagree, "seconds": round(total.xc_s, 2),
+                                                               "timeout_s_each": core.XC_TIMEOUT_S, "stride": core.XC_STRIDE}},
             "lemmas": [{k: _jsonable(v) for k, v in lr.items() if k != "assignment"} for lr in lemma_results],
             "selftest": {k: list(v) if isinstance(v, tuple) else v for k, v in st.items()},
             "known_findings_open": sorted(known_open),
